@@ -19,23 +19,23 @@ import (
 
 // Failure is one disagreement (or undecidable construct) found by the walk.
 type Failure struct {
-	Kind   string // mismatch | undecided | label | dropped | countlink
-	WPos   token.Pos
-	RPos   token.Pos
-	Msg    string
+	Kind string // mismatch | undecided | label | dropped | countlink
+	WPos token.Pos
+	RPos token.Pos
+	Msg  string
 }
 
 // Result of matching one writer/reader pair.
 type Result struct {
 	Failures []Failure
 	Steps    int
-	Prims    int // primitive pairs matched (distinct positions)
-	Worlds   int // leaf worlds (complete joint paths)
-	Labels   int // label pairs compared
+	Prims    int             // primitive pairs matched (distinct positions)
+	Worlds   int             // leaf worlds (complete joint paths)
+	Labels   int             // label pairs compared
 	Pairs    map[string]bool // callee pairs assumed (each is its own obligation)
 	Notes    []string
 	Opaque   []OpaqueWrite // writer arguments that are neither field, size nor constant, stored by the reader into a field
-	Tails    int // Available()-guarded tails evaluated (format-defined older/shorter messages)
+	Tails    int           // Available()-guarded tails evaluated (format-defined older/shorter messages)
 }
 
 func (r *Result) OK() bool { return len(r.Failures) == 0 }
@@ -46,10 +46,10 @@ type frame struct {
 	id    int
 	hook  func(types.Object) (string, bool)
 	// for inlined calls: the argument expression each parameter stands for, in the caller's frame
-	args   map[types.Object]ast.Expr
-	parent *frame
-	vargs  map[types.Object][]ast.Expr // variadic parameter -> the call's trailing arguments (caller's frame)
-	unrolled bool // one iteration of an unrolled loop over a fixed list: the loop variable is in subst
+	args     map[types.Object]ast.Expr
+	parent   *frame
+	vargs    map[types.Object][]ast.Expr // variadic parameter -> the call's trailing arguments (caller's frame)
+	unrolled bool                        // one iteration of an unrolled loop over a fixed list: the loop variable is in subst
 }
 
 type marker struct {
@@ -113,12 +113,12 @@ type absval struct {
 }
 
 type env struct {
-	iv     map[string]interval
-	excl   map[string][]int64
-	atoms  map[string]bool
-	rbind  map[interface{}]absval
-	wcount map[string]interface{}
-	rfield map[string]string // reader field label -> term key it aliases (writer label) when they differ
+	iv         map[string]interval
+	excl       map[string][]int64
+	atoms      map[string]bool
+	rbind      map[interface{}]absval
+	wcount     map[string]interface{}
+	rfield     map[string]string // reader field label -> term key it aliases (writer label) when they differ
 	pendingDec int
 }
 
@@ -191,18 +191,18 @@ type Matcher struct {
 	// established by its own obligation (so the calls are consumed without inlining).
 	IsPair func(w, r *types.Func) bool
 	// NoInline: callees never inlined (registry functions); must be paired.
-	primPos map[token.Pos]bool
-	atomUse map[string]int
-	atomList []string
-	depthOf map[*frame]int
-	splices map[Node][]Node
-	flat    map[*Loop]*Loop
-	frames  map[string]*frame
-	primCalls map[*Prim]*Call
+	primPos    map[token.Pos]bool
+	atomUse    map[string]int
+	atomList   []string
+	depthOf    map[*frame]int
+	splices    map[Node][]Node
+	flat       map[*Loop]*Loop
+	frames     map[string]*frame
+	primCalls  map[*Prim]*Call
 	curW       Node // writer head while a reader condition is evaluated (for Available())
 	Tails      int
 	rootNonNil []string
-	written   map[string]bool
+	written    map[string]bool
 	fieldCount map[string]string // writer: size key -> field label assigned from it (recv.RecordCount = len(items))
 	// per reader primitive that restores a field: did some joint path see the writer emit that field
 	// there, and did another see a default constant emitted instead (without the path implying the
@@ -335,6 +335,12 @@ func (m *Matcher) countAtoms(fr *frame) {
 			// values handed to the stream are observable by the reader: never forget facts about them
 			if sel, ok := v.Fun.(*ast.SelectorExpr); ok && strings.HasPrefix(sel.Sel.Name, "Write") && len(v.Args) > 0 {
 				if tv, ok := fr.ctx.Info.Types[sel.X]; ok && m.X.IsOut(tv.Type) {
+					// WriteBool(b) is matched as a branch on b (see the extractor): b is a condition too
+					if sel.Sel.Name == "WriteBool" {
+						if atv, ok := fr.ctx.Info.Types[v.Args[0]]; ok && atv.Value == nil {
+							conds = append(conds, v.Args[0])
+						}
+					}
 					if s, ok := m.X.canonF(fr, stripConv(fr.ctx, v.Args[0]), 0); ok {
 						m.written[s] = true
 					}
@@ -344,20 +350,32 @@ func (m *Matcher) countAtoms(fr *frame) {
 				}
 			}
 		}
-		for _, c := range conds {
-			m.eachAtom(c, func(a ast.Expr) {
-				if id, ok := ast.Unparen(a).(*ast.Ident); ok {
-					if obj := fr.ctx.Info.ObjectOf(id); obj != nil {
-						if x := m.commaOkOperand(fr, obj); x != nil {
-							a = x // `ok` of an always-succeeding-unless-nil assertion speaks about x
+		var visit func(a ast.Expr, depth int)
+		visit = func(a ast.Expr, depth int) {
+			if id, ok := ast.Unparen(a).(*ast.Ident); ok {
+				if obj := fr.ctx.Info.ObjectOf(id); obj != nil {
+					if x := m.commaOkOperand(fr, obj); x != nil {
+						a = x // `ok` of an always-succeeding-unless-nil assertion speaks about x
+					} else if isLocalVar(obj) && depth < 3 {
+						// a hoisted test: its atoms are the atoms of what it was defined as
+						if b, ok := obj.Type().Underlying().(*types.Basic); ok && b.Info()&types.IsBoolean != 0 {
+							if d := fr.ctx.singleDef(obj); d != nil {
+								if _, isCall := ast.Unparen(d).(*ast.CallExpr); !isCall {
+									m.eachAtom(d, func(x ast.Expr) { visit(x, depth+1) })
+									return
+								}
+							}
 						}
 					}
 				}
-				if s, ok := m.X.canonF(fr, a, 0); ok {
-					m.atomUse[s]++
-					m.atomList = append(m.atomList, s)
-				}
-			})
+			}
+			if s, ok := m.X.canonF(fr, a, 0); ok {
+				m.atomUse[s]++
+				m.atomList = append(m.atomList, s)
+			}
+		}
+		for _, c := range conds {
+			m.eachAtom(c, func(a ast.Expr) { visit(a, 0) })
 		}
 		return true
 	})
